@@ -101,3 +101,89 @@ let run_case (line : string) : string =
      | Slot.OutPanic -> "panic"
      | Slot.OutNotModelled -> "notmodelled")
   | k -> "unknown-kind " ^ k
+
+(* ---------- C14: topology ---------- *)
+(* tagged layout: "-" | addr@T:s-e,s-e+T:s-e;addr@...   T in n|m|i ; a node without slot ranges: addr@ *)
+let parse_tlayout (tok : string) =
+  if tok = "-" then []
+  else
+    List.map (fun node ->
+        match String.index_opt node '@' with
+        | None -> failwith ("bad node " ^ node)
+        | Some i ->
+          let a = String.sub node 0 i in
+          let rest = String.sub node (i + 1) (String.length node - i - 1) in
+          let srs = if rest = "" then [] else
+              List.map (fun sr ->
+                  let tg = (match sr.[0] with 'n' -> Topo.TNone | 'm' -> Topo.TMigrating | 'i' -> Topo.TImporting | _ -> failwith "tag") in
+                  let rs = String.sub sr 2 (String.length sr - 2) in
+                  { Topo.sr_ranges = (if rs = "" then [] else List.map parse_range (String.split_on_char ',' rs)); Topo.sr_tag = tg })
+                (String.split_on_char '+' rest) in
+          (bytes_of_str a, srs))
+      (String.split_on_char ';' tok)
+
+let parse_state = function
+  | "pc" -> Topo.PreCheck | "pb" -> Topo.PreBlocking | "ps" -> Topo.PreSwitch | "sc" -> Topo.Scanning
+  | "fs" -> Topo.FinalSwitch | "cm" -> Topo.SwitchCommitted | s -> failwith ("state " ^ s)
+
+(* states: "-" | s-e,s-e=pc;...  (the resulting HashMap; keys distinct) *)
+let parse_states (tok : string) =
+  if tok = "-" then []
+  else List.map (fun e ->
+      match String.index_opt e '=' with
+      | None -> failwith "state entry"
+      | Some i ->
+        let rs = String.sub e 0 i in
+        ((if rs = "" then [] else List.map parse_range (String.split_on_char ',' rs)),
+         parse_state (String.sub e (i + 1) (String.length e - i - 1))))
+      (String.split_on_char ';' tok)
+
+let fmt_ranges (rs : (BinNums.coq_N * BinNums.coq_N) list) : string =
+  let l = List.map (fun (a, b) -> (int_of_n a, int_of_n b)) rs in
+  String.concat "," (List.map (fun (a, b) -> Printf.sprintf "%d-%d" a b) (List.sort compare l))
+
+let run_topo (with_route : bool) (toks : string list ref) : string =
+  let v = (match next toks with "1" -> Topo.V1 | _ -> Topo.V2) in
+  let epoch = n_of_decstr (next toks) in
+  let self = next toks in
+  let local = parse_tlayout (next toks) in
+  let peer = parse_tlayout (next toks) in
+  let st = parse_states (next toks) in
+  let m = { Topo.t_epoch = epoch; Topo.t_local = local; Topo.t_peer = peer } in
+  let lines = Topo.gen_cluster_nodes (bytes_of_str self) m st v in
+  let nodes = List.map (fun l ->
+      let a = str_of_bytes l.Topo.nl_addr in
+      let f = str_of_bytes l.Topo.nl_field in
+      let fk = if f = a then "v1" else if f = a ^ "@5299" then "v2" else "bad" in
+      Printf.sprintf "%s,%s,%s,%s=%s" a (if l.Topo.nl_myself then "m" else "p") (decstr_of_n l.Topo.nl_epoch) fk
+        (fmt_ranges l.Topo.nl_ranges)) lines in
+  let slots = match Topo.gen_cluster_slots (bytes_of_str self) m st with
+    | None -> "err"
+    | Some es ->
+      let tbl = Hashtbl.create 8 in
+      List.iter (fun e ->
+          let a = str_of_bytes e.Topo.se_host ^ ":" ^ str_of_bytes e.Topo.se_port in
+          let cur = try Hashtbl.find tbl a with Not_found -> [] in
+          Hashtbl.replace tbl a ((e.Topo.se_start, e.Topo.se_end) :: cur)) es;
+      let items = Hashtbl.fold (fun a rs acc -> (a ^ "=" ^ fmt_ranges rs) :: acc) tbl [] in
+      String.concat ";" (List.sort compare items) in
+  let route =
+    if not with_route then ""
+    else begin
+      let rm = Topo.routing_meta m in
+      let ld = Slot.slot_map_dump (Slot.slot_map_new rm.Slot.m_local) in
+      let pd = Slot.slot_map_dump (Slot.slot_map_new rm.Slot.m_peer) in
+      let owners = List.map2 (fun l p ->
+          match l with
+          | Some a -> "L" ^ str_of_bytes a
+          | None -> (match p with Some a -> "M" ^ str_of_bytes a | None -> "-")) ld pd in
+      " | route " ^ rle owners
+    end in
+  "nodes " ^ String.concat ";" (List.sort compare nodes) ^ " | slots " ^ slots ^ route
+
+let run_case (line : string) : string =
+  let toks = ref (split_ws line) in
+  match !toks with
+  | "nodes" :: r -> toks := r; run_topo true toks
+  | "pnodes" :: r -> toks := r; run_topo false toks
+  | _ -> run_case line
